@@ -503,6 +503,7 @@ func init() {
 			return nil
 		}
 		late := int((upTimeout + 250*time.Millisecond) / time.Millisecond)
+		var lastDoh []byte // payload of the last DoH exchange that failed
 		for i := 0; i < c.n; i++ {
 			proto := "udp"
 			if r.Chance(30) {
@@ -510,6 +511,16 @@ func init() {
 			}
 			adv := advSizes[r.Intn(len(advSizes))]
 			payload := r.sockQuery(adv)
+			if lastDoh != nil && r.Chance(35) {
+				// the SAME question again (another ID) right after a faulty exchange, the upstream now healthy: state a
+				// resolver keeps per question (coalescing, negative marks) must not outlive the fault
+				payload = append([]byte{byte(r.Intn(256)), byte(r.Intn(256))}, lastDoh[2:]...)
+				adv = advOf(payload)
+				lastDoh = nil
+				c.Stat("doh:same-question-after-fault")
+				runDoh(proto, payload, dohFault{kind: "ok", arg: 40 + r.Intn(200), salt: r.Intn(256)})
+				continue
+			}
 			if r.Chance(50) {
 				var f dohFault
 				switch r.Intn(18) {
@@ -550,6 +561,11 @@ func init() {
 					}
 				}
 				runDoh(proto, payload, f)
+				if f.kind != "ok" && f.kind != "malformed" && f.kind != "oversize" {
+					lastDoh = append([]byte{}, payload...)
+				} else {
+					lastDoh = nil
+				}
 			} else {
 				var script []dgram
 				k := r.Intn(4)
